@@ -37,6 +37,8 @@ LOAD_ONE = [
     "carbon_gs_ae_contracted.cp2k.out", "FCIDUMP.molpro.h2", "FCIDUMP.psi4.h2", "water_orca.out", "PCGamess_PUNCH.dat",
     "water.gro", "crambin.crd", "water_z.com", "water_hf_ccpvtz_freq_qchem.out", "caffeine.mol2", "formamide.sdf", "2luv.pdb",
     "h2_ub3lyp_ccpvtz.wfx", "nh3_molden_pure.molden", "cubegen_ch4_6points.cube", "water.com", "water_sto3g_hf_g03.log",
+    # FCHK files with other sets of optional records (no quadrupole / no dipole moment)
+    "hf_sto3g.fchk", "water_hf_sto3g_qchem5.2.fchk", "ch3_rohf_sto3g_g03.fchk",
 ]
 # files whose format cannot be derived from the name: loaded with an explicit format
 LOAD_ONE_FMT = [
